@@ -21,7 +21,7 @@ func init() {
 		Assume: []string{"writers in the concurrent sub-workload only add cells, so that GC(M_final) <= final is implied by the statement for every pass instant", "the activity sub-workload uses no constant from the code: 'in use' = touched at most 1 s of wall clock ago"},
 		Run:    runC16,
 	})
-	expectedProbes["C16"] = []string{"c16.condemned", "c16.boundary_cell", "c16.write_inside_pass", "c16.active_table_skipped", "c16.idle_table_collected", "c16.union", "c16.intersection_untouched"}
+	expectedProbes["C16"] = []string{"c16.condemned", "c16.boundary_cell", "c16.write_inside_pass", "c16.active_table_skipped", "c16.touched_after_long_idle", "c16.idle_table_collected", "c16.union", "c16.intersection_untouched"}
 }
 
 func c16Rule(d *draws) *btapb.GcRule {
@@ -398,10 +398,22 @@ func c16Activity(r *Run, cfg *Stream) {
 	if !c16Write(r, w, c16Tbl, []entryIn{{Key: "k", Muts: muts}}) {
 		return
 	}
+	// optionally the table then sits idle for hours and is touched again (by a read only, or by
+	// a write to another row) just before the pass: it is in use again, whatever came before
 	touch := d.n(3)
+	if touch != 0 && d.n(2) == 1 {
+		idle := int64(6+d.n(72)) * 3600 * 1e9
+		clk.WallNs += idle
+		r.SimWallNs += idle
+		r.Probe("c16.touched_after_long_idle")
+	}
 	switch touch {
 	case 1:
-		w.ReadAll(c16Tbl)
+		if d.n(2) == 0 {
+			w.ReadAll(c16Tbl)
+		} else {
+			w.ReadRow(c16Tbl, "k")
+		}
 	case 2:
 		w.MutateRow(c16Tbl, "k2", mutList{setCell("f1", "q", 1000, "z")})
 	}
